@@ -35,7 +35,7 @@ CleanLen(xs, k) == IF k > Len(xs) \/ IsNaN(xs[k]) THEN k - 1 ELSE CleanLen(xs, k
 RECURSIVE MonoLen(_, _)
 MonoLen(xs, k) == IF k > Len(xs) \/ IsNaN(xs[k]) \/ (k > 1 /\ ~Le(xs[k - 1], xs[k])) THEN k - 1 ELSE MonoLen(xs, k + 1)
 
-TraceInit == l = 1
+TraceInit == TallyInit /\ l = 1
 
 TraceBatch ==
     /\ IsEvent("evalv")
